@@ -138,6 +138,12 @@ Theorem C09_triggs_returns_refuted :
     (exists bs', fasttriggs_kernel KScale d 0 bs = Some bs') /\ triggs_kernel KScale d 0 bs = None.
 Proof. exact triggs_scale_refuted. Qed.
 
+(* the raise is structural: for every number type (no real-number axioms involved) *)
+Theorem C09_triggs_scale_raises_any_number_type :
+  forall (F : Type) (NF : Num F) (TF : Trans F) (d p2 : F) (bs : list (@block F)),
+    @triggs_kernel F NF TF KScale d p2 bs = None.
+Proof. reflexivity. Qed.
+
 (* hypotheses are satisfiable *)
 Example C09_params_satisfiable :
   kernel_params KHuber 1 0 /\ kernel_params KPseudoHuber 2 0 /\ kernel_params KCauchy (1/2) 0 /\
@@ -156,3 +162,4 @@ Print Assumptions C09_triggs_defined. Print Assumptions C09_triggs_hess. Print A
 Print Assumptions C09_triggs_eq_fasttriggs_off_mask. Print Assumptions C09_triggs_grad_partial.
 Print Assumptions C09_triggs_grad_refuted. Print Assumptions C09_triggs_documented_formula_grad.
 Print Assumptions C09_triggs_builtin_kernels. Print Assumptions C09_triggs_returns_refuted.
+Print Assumptions C09_triggs_scale_raises_any_number_type.
